@@ -897,12 +897,15 @@ def observe(d):
     return term, o, bad
 
 
-def mode_corr(outdir, prefix, seed, ncases, nmax):
+def mode_corr(outdir, prefix, seed, ncases, nmax, only=None):
+    """only="murphy": the Murphy-diagram cases alone (used by the check of C15, whose text covers the Murphy diagram)"""
     rng = random.Random(seed)
     nmal = max(2, ncases // 12)
-    todo = [json.loads(json.dumps(x)) for x in FIXED]
-    todo += [gen_case(rng, nmax) for _ in range(max(0, ncases - len(todo) - nmal))]
-    todo += [gen_malformed(rng) for _ in range(nmal)]
+    todo = [json.loads(json.dumps(x)) for x in FIXED if only is None or x["kind"] == only]
+    gen = gen_case if only is None else {"murphy": gen_murphy, "rel": gen_rel, "bias": gen_bias}[only]
+    todo += [gen(rng, nmax) for _ in range(max(0, ncases - len(todo) - nmal))]
+    mal = [gen_malformed(rng) for _ in range(nmal * (1 if only is None else 12))]
+    todo += [m for m in mal if only is None or m["kind"] == only][:nmal]
     stats = dict(cases=0, by_kind={}, by_functional={}, columns={}, container={}, weighted=0, bias_variant=0,
                  ax_none=0, config_context=0, default_grid=0, explicit_etas=0, errors={}, bias_feature={},
                  bias_errbars_checked=0, bias_errbars_drawn=0, bias_with_null=0, marginal_calls=0, judged=0,
@@ -1080,6 +1083,9 @@ def main():
     if mode == "corr":
         outdir, prefix, seed, ncases, nmax = sys.argv[2:7]
         mode_corr(outdir, prefix, int(seed), int(ncases), int(nmax))
+    elif mode == "corrmurphy":
+        outdir, prefix, seed, ncases, nmax = sys.argv[2:7]
+        mode_corr(outdir, prefix, int(seed), int(ncases), int(nmax), only="murphy")
     elif mode == "judge":
         mode_judge(sys.argv[2])
     elif mode == "search":
